@@ -212,6 +212,7 @@ func ordNode(args []string) int {
 	snapc := fs.Int("snap", 5, "")
 	inc := fs.Int("inc", 0, "incarnation")
 	timed := fs.Bool("timed", false, "timed block generation (empty blocks allowed)")
+	lagMs := fs.Int("lag", 0, "upper bound (ms) of the stand-in executor's delay between persisting a block and reporting it")
 	killAfter := fs.Int("kill-after-deliveries", 0, "SIGKILL itself at VERIF_ORD_KILL point on the n-th delivery of this incarnation")
 	fs.Parse(args)
 	os.MkdirAll(*dir, 0755)
@@ -340,6 +341,11 @@ func ordNode(args []string) int {
 				killSelfIf("after-log")
 			}
 			net.emit(&wireMsg{T: "deliver", H: h})
+			// the real executor needs time to execute a block: the report to the order layer lags behind
+			// the delivery (ordering runs ahead of execution)
+			if *lagMs > 0 {
+				time.Sleep(time.Duration((h*2654435761)%uint64(*lagMs*1000)) * time.Microsecond)
+			}
 			node.ReportState(h, types.NewHash([]byte(fmt.Sprintf("%032d", h))), hl)
 		}
 	}()
